@@ -237,7 +237,10 @@ def do_check(pid, tier):
             if s["deadline_hit"]:
                 caps.append("%s shard %d stopped by deadline at case %d" % (r.harness, s["shard"], s["deadline_idx"]))
             for k, v in s["counters"].items():
-                counters[k] = counters.get(k, 0) + v
+                if k.startswith("="):      # same value in every shard: merge by max, not by sum
+                    counters[k[1:]] = max(counters.get(k[1:], 0), v)
+                else:
+                    counters[k] = counters.get(k, 0) + v
             for sm in s["samples"]:
                 if len(samples) < 12:
                     samples.append({"harness": r.harness, "args": r.spec.get("args", []), "idx": sm["idx"],
